@@ -14,7 +14,7 @@ PROPS = {
             "C03's conclusions about the information content (0 <= ic; ic of an ancestor <= ic of a term with positive ic) are hypotheses of the theorems, as is the sortedness of ancestor groups / annotation sets (C12/C01)",
             "the ASCII lower-casing of the model equals str::to_lowercase on the generated (ASCII + a few unaffected non-ASCII) names",
         ],
-        "partial": "theorems are over the reals with checked division (zero denominators are `none`); f32 rounding, overflow and the accuracy of logf/expf are NOT modelled and are covered only by the tolerance (4 ulp / 1e-6 relative) of the correspondence check; symmetry / finite / >= 0 / special cases are additionally checked bit-exactly on the implementation by the harness; the distance itself (distance_to_term) is an input of the Distance theorems (its symmetry is C11's subject)",
+        "partial": "theorems are over the reals with checked division (zero denominators are `none`); f32 rounding, overflow and the accuracy of logf/expf are NOT modelled and are covered only by the tolerance (4 ulp / 1e-6 relative) of the correspondence check; symmetry / finite / >= 0 / special cases are additionally checked bit-exactly on the implementation by the harness; for Distance the theorems cover the score as a function of distance_to_term plus its symmetry and d(a,a)=0 whenever it returns (that the distance is the least chain length is C11's subject)",
     },
     "C05": {
         "rule": "per case one ontology (14..20 terms, random ids) and: 13 hand-built matrices Matrix::new(r, c, data) with r = case index mod 13 and every c in 0..12 (all shapes incl. empty and non-square, dyadic entries k/64 with ties/constant/random fillings) through SimilarityCombiner::calculate, rows(), cols(), row_maxes, col_maxes; 12 set pairs of sizes 0..12 x 0..12 (empty, equal, unequal, identical sets, duplicate ids) through HpoSet::similarity with a USER-SUPPLIED similarity injected via the public Similarity trait (asymmetric table ((31a+17b+salt) mod 64)/64 or a symmetric one), all three combiners; 2 sequences of 2..7 queries (repeated, swapped, overlapping) through one CachedSimilarity; distinct = distinct op lists; every case non-trivial (contains non-square asymmetric matrices)",
